@@ -796,6 +796,16 @@ func inputsChecks(c *Ctx, dir string, round int, big int) {
 		{[]string{"--stream", "-n"}, 0, 1, 0, 1, "inputs", "[inputs]"},
 		{[]string{"--stream", "-s"}, 0, 1, 1, 0, "id", "."},
 		{[]string{"--stream"}, 0, 1, 0, 0, "pair", "[., input]"},
+		// partial consumption through a laziness construct, then further consumption
+		{[]string{"-n"}, 0, 0, 0, 1, "prog", ""},
+		{[]string{"-n"}, 0, 0, 0, 1, "prog", ""},
+		{[]string{"-n"}, 0, 0, 0, 1, "prog", ""},
+		{[]string{"-n"}, 0, 0, 0, 1, "prog", ""},
+		{[]string{"--stream", "-n"}, 0, 1, 0, 1, "prog", ""},
+		{[]string{"-R", "-n"}, 1, 0, 0, 1, "prog", ""},
+		{[]string{"-R", "-n"}, 1, 0, 0, 1, "prog", ""},
+		{nil, 0, 0, 0, 0, "iter", "[.[]?, input]"},
+		{[]string{"--stream"}, 0, 1, 0, 0, "iter", "[.[]?, input]"},
 	}
 	// sources
 	nfiles := r.Intn(4)
@@ -849,17 +859,29 @@ func inputsChecks(c *Ctx, dir string, round int, big int) {
 			}
 		}
 		total := 0
+		count := func(text string) int {
+			if raw {
+				return strings.Count(text, "\n") + 1
+			}
+			vs, _ := decodeAll(text)
+			return len(vs) + 1
+		}
 		for _, sc := range srcs {
 			if !sc.missing {
-				vs, _ := decodeAll(sc.text)
-				total += len(vs)
+				total += count(sc.text)
 			}
+		}
+		if len(srcs) == 0 {
+			total = count(stdinText)
 		}
 		for _, m := range modes {
 			if (m.r == 1) != raw {
 				continue
 			}
 			q, jq := m.query, m.jq
+			if q == "prog" {
+				q, jq = genProg(r, total)
+			}
 			if q == "inputk" {
 				k := r.Intn(total + 3)
 				q = fmt.Sprintf("(inputk %d)", k)
@@ -897,6 +919,7 @@ func inputsChecks(c *Ctx, dir string, round int, big int) {
 			c.Count("equiv:" + what)
 		}
 		if !raw {
+			partialConsumption(c, dir, operands, stdinText, files)
 			eq([]string{"-s", "-c", "."}, []string{"-n", "-c", "[inputs]"}, "-s .")
 			if plain := runCLI(append([]string{"-c", "."}, operands...), stdinText); plain.code == 0 {
 				// without an error value in the stream (an error ends `inputs`, the main loop goes on)
@@ -982,6 +1005,96 @@ func inputsChecks(c *Ctx, dir string, round int, big int) {
 			}
 		}
 	}
+}
+
+// Go-side: on an error-free stream, taking k values through a laziness construct and then the rest gives
+// back the whole stream, each value exactly once, in order, for every k
+func partialConsumption(c *Ctx, dir string, operands []string, stdinText string, files map[string]string) {
+	all := runCLI(append([]string{"-c", "."}, operands...), stdinText)
+	vals, ok := decodeAll(all.stdout)
+	if all.code != 0 || !ok || len(vals) > 40 {
+		return
+	}
+	n := len(vals)
+	check := func(jq string, want []any, wantErr bool) {
+		args := append([]string{"-n", "-c", jq}, operands...)
+		res := runCLI(args, stdinText)
+		got, ok := decodeAll(res.stdout)
+		if !ok || (res.code != 0) != wantErr || !(reflect.DeepEqual(got, want) || len(got) == 0 && len(want) == 0) {
+			c.Violation("%s :: partial consumption then the rest does not give back the stream exactly once in order", caseText(shortArgs(args, dir), stdinText, files))
+		}
+		c.Count("equiv:partial")
+	}
+	arr := func(xs []any) any {
+		if xs == nil {
+			return []any{}
+		}
+		return append([]any{}, xs...)
+	}
+	for k := 0; k <= n+1; k++ {
+		m := min(k, n)
+		check(fmt.Sprintf("[limit(%d; inputs)], [inputs]", k), []any{arr(vals[:m]), arr(vals[m:])}, false)
+		check(fmt.Sprintf("reduce limit(%d; inputs) as $x (0; . + 1), [inputs]", k), []any{json.Number(strconv.Itoa(m)), arr(vals[m:])}, false)
+		if k <= n {
+			check(fmt.Sprintf("[limit(%d; repeat(input))], [inputs]", k), []any{arr(vals[:k]), arr(vals[k:])}, false)
+		} else {
+			check(fmt.Sprintf("[limit(%d; repeat(input))], [inputs]", k), nil, true)
+		}
+	}
+	if n > 0 {
+		check("first(inputs), [inputs]", []any{vals[0], arr(vals[1:])}, false)
+		check("(label $o | inputs | ., break $o), [inputs]", []any{vals[0], arr(vals[1:])}, false)
+		check("isempty(inputs), [inputs]", []any{false, arr(vals[1:])}, false)
+		check("input, [inputs]", []any{vals[0], arr(vals[1:])}, false)
+	} else {
+		check("first(inputs), [inputs]", []any{[]any{}}, false)
+		check("isempty(inputs), [inputs]", []any{true, []any{}}, false)
+	}
+}
+
+// a program st1, st2, …: each stage pulls a known number of values from the shared iterator
+func genProg(r *Rng, total int) (string, string) {
+	var qs, js []string
+	k := func() int { return r.Intn(total + 3) }
+	n := 1 + r.Intn(3)
+	for i := 0; i < n; i++ {
+		last := i == n-1
+		c := r.Intn(12)
+		if last && r.Chance(2, 3) {
+			c = 10 + r.Intn(2) // finish with the rest
+		}
+		switch c {
+		case 0, 1:
+			x := k()
+			qs, js = append(qs, fmt.Sprintf("(take %d)", x)), append(js, fmt.Sprintf("[limit(%d; inputs)]", x))
+		case 2:
+			if r.Chance(1, 2) {
+				qs, js = append(qs, "first"), append(js, "first(inputs)")
+			} else {
+				qs, js = append(qs, "first"), append(js, "(label $o | inputs | ., break $o)")
+			}
+		case 3:
+			x := k()
+			qs, js = append(qs, fmt.Sprintf("(takerep %d)", x)), append(js, fmt.Sprintf("[limit(%d; repeat(input))]", x))
+		case 4:
+			qs, js = append(qs, "input"), append(js, "input")
+		case 5:
+			qs, js = append(qs, "isempty"), append(js, "isempty(inputs)")
+		case 6:
+			x := k()
+			qs, js = append(qs, fmt.Sprintf("(redcount %d)", x)), append(js, fmt.Sprintf("reduce limit(%d; inputs) as $x (0; . + 1)", x))
+		case 7:
+			x := k()
+			qs, js = append(qs, fmt.Sprintf("(foreach %d)", x)), append(js, fmt.Sprintf("[foreach limit(%d; inputs) as $x (0; . + 1; [., $x])]", x))
+		case 8:
+			qs, js = append(qs, "until"), append(js, "(null | until(. != null; input))")
+		case 9:
+			qs, js = append(qs, "inputfilter"), append(js, "(input as $a | [inputs | select(type == ($a | type))])")
+		default:
+			qs, js = append(qs, "rest"), append(js, "[inputs]")
+		}
+	}
+	return "(prog " + strings.Join(qs, " ") + ")", strings.Join(js, ", ")
 }
 
 func shortArgs(args []string, dir string) []string {
